@@ -123,7 +123,9 @@ SO_ClnStep == (cln.pc # "idle" /\ cln' # cln /\ cln'.pc # "idle") => P_CleanStep
 SO_Reopen == Ret("Reopen") => P_Reopen
 S_Reopen == [][SO_Reopen]_mcvars
 SO_Img == Ret("CrashImage") => P_CrashImage(cln.b)
-SO_Rd == \A r \in Readers : (Ret("RdNext") /\ rd'[r] # rd[r]) => P_RdNext(r)
+\* (open finding X05-committed-reader-hw-below-start: not demanded when the HW lies below the log start)
+SO_Rd == \A r \in Readers : (Ret("RdNext") /\ rd'[r] # rd[r]) =>
+            (P_RdClass(r) /\ P_RdContent(r) /\ P_RdOrder(r) /\ P_RdQuiet(r) /\ (HWBelowStart \/ P_RdCommitted(r)))
 StepOK == SO_App /\ SO_Trn /\ SO_ClnSwap /\ SO_ClnStep /\ SO_Img /\ SO_Rd
 S_App == [][SO_App]_mcvars
 S_Trn == [][SO_Trn]_mcvars
